@@ -334,7 +334,8 @@ fn cmd_batch(args: &Args) {
     let beats: Arc<Vec<AtomicU64>> = Arc::new((0..jobs).map(|_| AtomicU64::new(u64::MAX)).collect());
     let beat_time: Arc<Vec<AtomicU64>> = Arc::new((0..jobs).map(|_| AtomicU64::new(0)).collect());
     // watchdog: the only reader of real time; it can end a run, never alter one
-    {
+    // (not under Miri, which insists that every thread is joined)
+    if !cfg!(miri) {
         let beats = beats.clone();
         let beat_time = beat_time.clone();
         std::thread::spawn(move || loop {
